@@ -244,6 +244,8 @@ def _account_def(stats, plan, tr):
         stats.faults_fired['stopsig'] = stats.faults_fired.get('stopsig', 0) + kinds.count('bad')
     if plan['knobs'].get('compiled') is not None:
         stats.probe('compiled_sessions')
+    if plan.get('cut'):
+        stats.probe('sessions_of_two_streams_scanned_by_one_decoder')
     if plan['knobs'].get('filter'):
         stats.probe('sessions_with_an_all_accepting_filter')
 
